@@ -252,8 +252,35 @@ class _FoldIfExp(ast.NodeTransformer):
         return n
 
 
+class _FoldBool(ast.NodeTransformer):
+    """`False and x` -> False, `a or False` -> a, `True and a` -> a, `True or x` -> True
+    (constants left behind by flags bound to literals); operands are dropped only
+    where Python would not have evaluated them or where they are the constants themselves."""
+
+    def visit_BoolOp(self, n):
+        self.generic_visit(n)
+        is_and = isinstance(n.op, ast.And)
+        absorbing, neutral = (False, True) if is_and else (True, False)
+        vals = []
+        for v in n.values:
+            if isinstance(v, ast.Constant) and isinstance(v.value, bool):
+                if v.value is absorbing:
+                    vals.append(v)
+                    break  # nothing after it is evaluated
+                continue  # the neutral constant contributes nothing
+            vals.append(v)
+        if not vals:
+            return ast.copy_location(ast.Constant(value=neutral), n)
+        if len(vals) == 1:
+            return vals[0]
+        if isinstance(vals[-1], ast.Constant) and vals[-1].value is absorbing and len(vals) != len(n.values):
+            pass
+        n.values = vals
+        return n
+
+
 def _prune_constant_ifs(stmts):
-    stmts = [_FoldIfExp().visit(x) for x in stmts]
+    stmts = [_FoldBool().visit(_FoldIfExp().visit(x)) for x in stmts]
     out = []
     for x in stmts:
         if isinstance(x, ast.If):
@@ -1383,6 +1410,11 @@ class Normalizer:
                     if wanted(a):
                         holder = (value.args, i)
                         break
+                    if isinstance(a, ast.Starred) and wanted(a.value):
+                        # f(*helper(x)): the helper's result is bound first, the star is spelt out afterwards
+                        # if the result turns out to be a tuple display (see _spread_star_tuples)
+                        holder = (a, "value")
+                        break
                     if inner_slot(a) is not None:
                         holder = inner_slot(a)
                         break
@@ -1514,6 +1546,7 @@ class Normalizer:
                     rep = self._inline_for_gen(fi, st, depth, banned) if isinstance(st, ast.For) else None
                     out2 += rep if rep is not None else [st]
                 out = out2
+        out = self._spread_star_tuples(out)
         # a hoisted loop header whose helper turned out to be a plain
         # expression goes back into the header (`_t = chain(...); for x in _t:`)
         res = []
@@ -1531,6 +1564,33 @@ class Normalizer:
                 continue
             res.append(st)
         return res
+
+    @staticmethod
+    def _spread_star_tuples(stmts):
+        """``t = (a, b)`` directly followed by a statement whose only use of ``t``
+        is ``f(*t)``: the call is written ``f(a, b)`` (the tuple's elements are
+        evaluated at the same point, in the same order)."""
+        out = list(stmts)
+        i = 0
+        while i + 1 < len(out):
+            a, b = out[i], out[i + 1]
+            if (
+                isinstance(a, ast.Assign) and len(a.targets) == 1 and isinstance(a.targets[0], ast.Name) and isinstance(a.value, ast.Tuple)
+                and all(_is_path_expr(e) for e in a.value.elts) and a.targets[0].id.startswith("_arg__h")
+            ):
+                name = a.targets[0].id
+                uses = [x for st in out[i + 1:] for x in ast.walk(st) if isinstance(x, ast.Name) and x.id == name]
+                stars = [
+                    (c, k) for c in ast.walk(b) if isinstance(c, ast.Call)
+                    for k, arg in enumerate(c.args) if isinstance(arg, ast.Starred) and isinstance(arg.value, ast.Name) and arg.value.id == name
+                ]
+                if len(uses) == 1 and len(stars) == 1:
+                    c, k = stars[0]
+                    c.args[k:k + 1] = [copy.deepcopy(e) for e in a.value.elts]
+                    del out[i]
+                    continue
+            i += 1
+        return out
 
     def flat(self, fi: FuncInfo, depth: int = 2, keep: tuple = ()) -> FlatFunc:
         """``keep``: qualnames of helpers that must stay calls (a rule that
